@@ -1102,8 +1102,35 @@ func (g *bGen) deviate(c *bCase) {
 			return false
 		}},
 	}
+	// half of the deviations come from the sites closest to the property under check
+	focus := map[string][]string{
+		"C01": {"batch-version", "batch-version-flag", "height-hint-edge", "height-wrap", "clearing-price",
+			"market-duration", "move-order-to-other-market", "our-rate", "our-duration", "our-auction-type",
+			"our-side", "our-unfulfilled", "our-min-match", "allow-list", "deny-list", "their-side",
+			"their-duration", "their-auction-type", "their-rate", "their-node-key", "their-units", "extra-match",
+			"drop-match", "unknown-our-nonce"},
+		"C02": {"fee-rate", "exec-base", "exec-rate", "clearing-price", "our-self-balance", "their-self-balance",
+			"their-units", "diff-balance", "diff-balance-and-output", "diff-state", "diff-index", "diff-new-expiry",
+			"diff-new-version", "diff-acct-key", "diff-drop", "diff-duplicate-plain", "diff-uninvolved-account",
+			"acct-value", "acct-version", "acct-expiry", "acct-batch-key", "acct-secret", "acct-auctioneer-key",
+			"out-value", "out-script", "out-wrong-script-kind", "our-acct-key"},
+		"C03": {"our-chan-type", "their-chan-type", "our-key-index", "our-sidecar", "their-multisig-key",
+			"our-self-balance", "their-self-balance", "their-units", "out-value", "out-script", "out-swap-scripts",
+			"out-drop", "out-wrong-script-kind", "extra-match"},
+	}
+	pick := func() site {
+		if f := focus[g.prop]; len(f) > 0 && rng.Intn(2) == 0 {
+			name := f[rng.Intn(len(f))]
+			for _, s := range sites {
+				if s.name == name {
+					return s
+				}
+			}
+		}
+		return sites[rng.Intn(len(sites))]
+	}
 	for try := 0; try < 20; try++ {
-		s := sites[rng.Intn(len(sites))]
+		s := pick()
 		if s.fn() {
 			c.Devs = append(c.Devs, s.name)
 			return
